@@ -98,3 +98,6 @@ func (e *Env) Passive(stackPort, peerPort uint16, iss uint32, o SynOpts, wnd uin
 	}
 	return l, s, p, nil
 }
+
+// Close lets the stack of a finished case be collected.
+func (e *Env) Close() { netsim.ReleaseStack(e.Stack, e.Tap) }
